@@ -314,7 +314,10 @@ func rewriteMapRanges(fn string, f *ast.File, info *types.Info) int {
 			return true
 		}
 		if !pureExpr(rs.X) {
-			die("%s: range over map expression with possible side effects at %v (unsupported)", fn, fset.Position(rs.Pos()))
+			// the rewrite evaluates the expression once per key; an expression with possible side effects keeps its
+			// native range (its order is then the run-time's, not the harness's) rather than failing the build
+			fmt.Fprintf(os.Stderr, "instr: maprange NOT rewritten at %v: range expression with possible side effects\n", fset.Position(rs.Pos()))
+			return true
 		}
 		keyT := types.TypeString(mt.Key(), func(p *types.Package) string {
 			if p.Name() == f.Name.Name && !strings.Contains(p.Path(), "/"+f.Name.Name+"/") {
